@@ -5,6 +5,7 @@ package c03
 
 import (
 	"bytes"
+	stdecdsa "crypto/ecdsa"
 	"crypto/elliptic"
 	"crypto/rand"
 	"crypto/sha256"
@@ -144,6 +145,33 @@ type world struct {
 	ecPub                                *patecdsa.PublicKey
 	ecHash, ecSigASN1, ecR, ecS          []byte
 	edPub, edMsg, edSig                  []byte
+	ownKey, blindedSigner                *stdecdsa.PrivateKey // a key of the harness; the world client's blinded signing key d*r
+}
+
+// resign returns the input with a fresh, valid request signature if it has the shape of a type-3 request
+// (type, 49-byte key, 32-byte key id, length-prefixed ciphertext, anything after it), otherwise the input itself.
+// With replaceKey the request key field becomes the signer's compressed public key.
+func resign(in []byte, signer *stdecdsa.PrivateKey, replaceKey bool) []byte {
+	if len(in) < 85 {
+		return in
+	}
+	n := int(in[83])<<8 | int(in[84])
+	if 85+n > len(in) {
+		return in
+	}
+	msg := append([]byte{}, in[:85+n]...)
+	if replaceKey {
+		copy(msg[2:51], elliptic.MarshalCompressed(elliptic.P384(), signer.X, signer.Y))
+	}
+	dg := sha512.Sum384(msg)
+	r, s, err := stdecdsa.Sign(rt.NewDRBG(dg[:]), signer, dg[:])
+	if err != nil {
+		return in
+	}
+	sig := make([]byte, 96)
+	r.FillBytes(sig[:48])
+	s.FillBytes(sig[48:])
+	return append(msg, sig...)
 }
 
 type memCache struct{ m map[string]*type3.ClientState }
@@ -220,6 +248,15 @@ func theWorld() *world {
 		sec := new(big.Int).Mod(new(big.Int).SetBytes(sha512.New().Sum([]byte("client secret"))), n).Bytes()
 		bl := new(big.Int).Mod(new(big.Int).SetBytes(sha512.New().Sum([]byte("request blind"))), n).Bytes()
 		x.blind3 = bl
+		{
+			own := new(big.Int).Mod(new(big.Int).SetBytes(sha512.New().Sum([]byte("harness key"))), n)
+			ox, oy := elliptic.P384().ScalarBaseMult(own.Bytes())
+			x.ownKey = &stdecdsa.PrivateKey{PublicKey: stdecdsa.PublicKey{Curve: elliptic.P384(), X: ox, Y: oy}, D: own}
+			db := new(big.Int).Mul(new(big.Int).SetBytes(sec), ref.ECDSABlindScalar(elliptic.P384(), new(big.Int).SetBytes(bl), ref.ClientBlindCtx))
+			db.Mod(db, n)
+			bx, by := elliptic.P384().ScalarBaseMult(db.Bytes())
+			x.blindedSigner = &stdecdsa.PrivateKey{PublicKey: stdecdsa.PublicKey{Curve: elliptic.P384(), X: bx, Y: by}, D: db}
+		}
 		reseed("3")
 		x.st3, err = type3.NewRateLimitedClientFromSecret(sec).CreateTokenRequest(chal[:], nonce[:], bl, x.iss3.TokenKeyID(), x.iss3.TokenKey(), "origin.example", x.iss3.NameKey())
 		must(err)
@@ -434,6 +471,23 @@ func allTargets() []*target {
 			run: func(in []byte) { _, _ = x.st5.FinalizeTokens(in) }})
 		add(&target{name: "type3.RateLimitedIssuer.Evaluate", heavy: true, fields: []int{0, 1, 83, 84}, seeds: append([][]byte{x.req3}, x.req3Variants...), layout: layoutType3Request,
 			run: func(in []byte) { _, _, _ = x.iss3.Evaluate(in) }})
+		// the same entry points behind the signature check: whatever has the SHAPE of a type-3 request is re-signed by
+		// the harness before the code sees it (a sender can always sign its own bytes with its own key), so that the
+		// mutations reach what runs after the signature check instead of all stopping at "invalid signature"
+		add(&target{name: "type3.RateLimitedIssuer.Evaluate+signed", heavy: true, fields: []int{0, 1, 83, 84}, seeds: append([][]byte{x.req3}, x.req3Variants...), layout: layoutType3Request,
+			run: func(in []byte) { _, _, _ = x.iss3.Evaluate(resign(in, x.ownKey, true)) }})
+		add(&target{name: "type3.Attester.VerifyRequest+signed", heavy: true, packed: 4, fields: []int{0, 1, 2, 3, 85, 86},
+			seeds: [][]byte{pack(x.req3, x.blind3, x.client3, x.anon)},
+			run: func(in []byte) {
+				a := split(in, 4)
+				r := new(type3.RateLimitedTokenRequest)
+				// signed with the genuine blinded key of the world's client: authentic as long as the request key survives
+				if !r.Unmarshal(resign(a[0], x.blindedSigner, false)) {
+					return
+				}
+				att := type3.NewRateLimitedAttester(&memCache{m: map[string]*type3.ClientState{}})
+				_ = att.VerifyRequest(*r, a[1], a[2], a[3])
+			}})
 		add(&target{name: "type3.Attester.VerifyRequest", heavy: true, packed: 4, fields: []int{0, 1, 2, 3, 85, 86},
 			seeds: [][]byte{pack(x.req3, x.blind3, x.client3, x.anon)},
 			run: func(in []byte) {
